@@ -41,6 +41,7 @@ class Interp:
                 t = b.locals[1]
                 self.cmap[re.sub(r'^&(mut )?', '', t)] = (n, t.startswith('&'))
         self.fresh_n = 0
+        self.gstack = []        # generic instantiations of the crate-local generic bodies being interpreted
         self.base = []          # assumptions of the harness (list of z3 Bool)
         # trait impls of the crate itself: `<T as Trait>::m` at call sites, `<impl at file:line>::m` in body headers
         self.impls = {}
@@ -221,7 +222,16 @@ class Interp:
                 avals = [self.operand(cells, a) for a in aops]
                 if callee.startswith(('move _', 'copy _')):
                     raise Unsupported('indirect call in ' + name)
-                r = self.call(self.resolve(callee), avals)
+                target = self.resolve(callee)
+                if target != callee and target in self.bodies and callee.endswith('>') and '::<' in callee:
+                    # crate-local generic body: remember the instantiation for models that need a static type
+                    self.gstack.append(callee[callee.rindex('::<') + 3:-1])
+                    try:
+                        r = self.call(target, avals)
+                    finally:
+                        self.gstack.pop()
+                else:
+                    r = self.call(target, avals)
                 if ret is None:
                     raise Unsupported('diverging call returned: ' + callee)
                 self.place(cells, dest).set(r)
@@ -234,6 +244,14 @@ class Interp:
         if r is not None:
             return r
         r = callee
+        if callee not in self.bodies and callee.endswith('>') and '::<' in callee:
+            # crate-local generic function: the body is listed without its instantiation (`f::<T>` -> `f`)
+            base = callee[:callee.rindex('::<')]
+            if base in self.bodies or any(base.split('::', k)[-1] in self.bodies for k in range(1, base.count('::') + 1)):
+                callee_key, callee = callee, base
+                r = self.resolve(base)
+                self._resolve_cache[callee_key] = r
+                return r
         if callee not in self.bodies:
             short = callee.split('::')
             for n in range(1, len(short)):
@@ -243,6 +261,9 @@ class Interp:
                     break
             else:
                 m = re.match(r'^<([\w:]+) as [\w:<>, ]+>::(\w+)$', callee)
+                if m is None:
+                    # inherent impl of a crate-local type: `Type::method` at the call site, `<impl at file:line>::method` as body name
+                    m = re.match(r'^(?:\w+::)*(\w+)(?:::<[^>]*>)?::(\w+)$', callee)
                 if m:
                     cands = self.impls.get((m.group(1).split('::')[-1], m.group(2)), [])
                     if len(cands) == 1:
@@ -492,6 +513,8 @@ class Interp:
             if rv[1] == 'PtrMetadata':
                 a = deref(a)
                 return len(a.items if isinstance(a, VecV) else a)
+            if rv[1] == 'Neg' and is_sym(a) and z3.is_fp(a):
+                return z3.fpNeg(a)
             if rv[1] == 'Neg':
                 return -a
         raise Unsupported('rvalue ' + k + ' ' + str(rv[1]))
@@ -509,6 +532,18 @@ class Interp:
         return None
 
     def binop(self, body, op, a, b, oa, ob):
+        if (is_sym(a) and z3.is_fp(a)) or (is_sym(b) and z3.is_fp(b)):
+            # IEEE-754 semantics (z3 floating-point theory, round-to-nearest-even like Rust)
+            srt = a.sort() if (is_sym(a) and z3.is_fp(a)) else b.sort()
+            a = a if is_sym(a) else z3.FPVal(float(a), srt)
+            b = b if is_sym(b) else z3.FPVal(float(b), srt)
+            cmp_ = {'Eq': z3.fpEQ, 'Ne': z3.fpNEQ, 'Lt': z3.fpLT, 'Le': z3.fpLEQ, 'Gt': z3.fpGT, 'Ge': z3.fpGEQ}
+            if op in cmp_:
+                return cmp_[op](a, b)
+            ar = {'Add': z3.fpAdd, 'Sub': z3.fpSub, 'Mul': z3.fpMul, 'Div': z3.fpDiv}
+            if op in ar:
+                return ar[op](z3.RNE(), a, b)
+            raise Unsupported('floating-point binop ' + op)
         if isinstance(a, bool) and not isinstance(b, bool) and not is_sym(b):
             a = int(a)
         sym = is_sym(a) or is_sym(b)
